@@ -1,4 +1,242 @@
 import PeptVerif.Model.AnnotEq
 import PeptVerif.Model.ModDict
+import PeptVerif.Lemmas.AnnotEq
+import PeptVerif.Lemmas.ModDict
+/-!
+# C20 - modification dictionaries and annotation copies reconstruct the same peptide; equality laws
+
+Models: `Pept.annEq` (`ProFormaAnnotation.__eq__`), `areModsEqual`, `areIntervalsEqual`, `modEq`, `ivEq`
+(Model/AnnotEq.lean) and `modDict`, `addModDict`, `strip`, `copy`, `dictArgs`, `createAnnotation`
+(Model/ModDict.lean). Every `theorem` below is a proof obligation.
+
+A *slot* is a position that carries a list of modifications: labile, unknown, N-term, C-term, charge adducts,
+isotope rules, static rules, or a residue index (`Slot.get`); the interval list is a position of its own and
+every interval carries a list as well.
+-/
 namespace Pept.C20
+open Pept
+
+/-- `{Glycan:Hex}[Acetyl]-PE[3]T[1.0][Phospho]^2/2` with an interval `(0,2)[+5]` -/
+def exA : Annotation :=
+  { seq := "PET".toList
+    labile := some [⟨.str "Glycan:Hex".toList, 1⟩]
+    nterm := some [⟨.str "Acetyl".toList, 1⟩]
+    internal := some [(1, [⟨.int 3, 1⟩]), (2, [⟨.flt "1.0".toList, 1⟩, ⟨.str "Phospho".toList, 2⟩])]
+    intervals := some [⟨0, 2, false, some [⟨.int 5, 1⟩]⟩]
+    charge := some 2 }
+
+/-- the same peptide with the mods of residue 2 in the other order and `1.0` written as the int `1` -/
+def exB : Annotation :=
+  { exA with internal := some [(2, [⟨.str "Phospho".toList, 2⟩, ⟨.int 1, 1⟩]), (1, [⟨.int 3, 1⟩])] }
+
+/-! ## equality is an equivalence relation -/
+
+theorem eq_refl (a : Annotation) : annEq a a = true := (annEq_iff a a).2 (annEquiv_refl a)
+
+theorem eq_symm (a b : Annotation) : annEq a b = annEq b a := by
+  cases hab : annEq a b with
+  | true => exact ((annEq_iff b a).2 (annEquiv_symm ((annEq_iff a b).1 hab))).symm
+  | false =>
+    cases hba : annEq b a with
+    | true => rw [(annEq_iff a b).2 (annEquiv_symm ((annEq_iff b a).1 hba))] at hab; cases hab
+    | false => rfl
+
+theorem eq_trans (a b c : Annotation) (h1 : annEq a b = true) (h2 : annEq b c = true) : annEq a c = true :=
+  (annEq_iff a c).2 (annEquiv_trans ((annEq_iff a b).1 h1) ((annEq_iff b c).1 h2))
+
+example : annEq exA exB = true ∧ annEq exB exA = true ∧ exA ≠ exB := by decide
+
+/-! ## what equality means -/
+
+/-- `a == b` iff residues and charge agree and every position carries equal multisets (declarative form of the
+eleven sequential tests of `__eq__`, with the key-union loop over internal mods replaced by "for every index") -/
+theorem eq_iff_equiv (a b : Annotation) : annEq a b = true ↔ AnnEquiv a b := annEq_iff a b
+
+/-- two mod lists are equal iff their multisets of (value as Python compares it, multiplier) keys are equal:
+`modKey` is the canonical form of one mod (an int and a float with the same decimal value have the same key) -/
+theorem mods_eq_iff_perm_keys (l l' : List Mod) :
+    areModsEqual (some l) (some l') = true ↔ (l.map modKey).Perm (l'.map modKey) :=
+  counterEq_iff_perm l l'
+
+/-- `None` and a list (even an empty one) are different -/
+theorem mods_none_ne_list (l : List Mod) : areModsEqual none (some l) = false ∧ areModsEqual (some l) none = false :=
+  ⟨rfl, rfl⟩
+
+example : modKey ⟨.int 1, 1⟩ = modKey ⟨.flt "1.0".toList, 1⟩ ∧ modKey ⟨.int 100, 2⟩ = modKey ⟨.flt "100.0".toList, 2⟩ ∧
+    modKey ⟨.int 1, 1⟩ ≠ modKey ⟨.str "1".toList, 1⟩ ∧ modKey ⟨.flt "1.5".toList, 1⟩ ≠ modKey ⟨.flt "1.25".toList, 1⟩ := by
+  decide
+
+/-! ## insensitive to the order of modifications at one position -/
+
+/-- reordering the mods of any slot, reordering the interval list and reordering the mods inside intervals
+(`Rel2`: interval by interval, same bounds) gives an equal annotation -/
+theorem eq_perm_insensitive (a b : Annotation) (hseq : a.seq = b.seq) (hcharge : a.charge = b.charge)
+    (hslots : ∀ s : Slot, (s.get a = none ∧ s.get b = none) ∨ ∃ l l', s.get a = some l ∧ s.get b = some l' ∧ l.Perm l')
+    (hiv : (a.intervals = none ∧ b.intervals = none) ∨
+      ∃ L L' L'', a.intervals = some L ∧ b.intervals = some L' ∧ L.Perm L'' ∧
+        Rel2 (fun i j : Interval => i.start = j.start ∧ i.stop = j.stop ∧ i.ambiguous = j.ambiguous ∧
+          ((i.mods = none ∧ j.mods = none) ∨ ∃ m m', i.mods = some m ∧ j.mods = some m' ∧ m.Perm m')) L'' L') :
+    annEq a b = true := by
+  have modsOk : ∀ o o' : Option (List Mod),
+      ((o = none ∧ o' = none) ∨ ∃ l l', o = some l ∧ o' = some l' ∧ l.Perm l') → areModsEqual o o' = true := by
+    intro o o' h
+    rcases h with ⟨h1, h2⟩ | ⟨l, l', h1, h2, hp⟩
+    · rw [h1, h2]; rfl
+    · rw [h1, h2]; exact msEq_of_perm modEq l l' hp
+  have slotOk : ∀ s : Slot, areModsEqual (s.get a) (s.get b) = true := fun s => modsOk _ _ (hslots s)
+  refine (annEq_iff a b).2 ⟨hseq, slotOk .labile, slotOk .unknown, slotOk .nterm, slotOk .cterm, slotOk .adducts,
+    slotOk .isotope, slotOk .static, fun k => slotOk (.residue k), ?_, hcharge⟩
+  rcases hiv with ⟨h1, h2⟩ | ⟨L, L', L'', h1, h2, hp, hr⟩
+  · rw [h1, h2]; rfl
+  · rw [h1, h2, areIntervalsEqual_some]
+    have hr' : Rel2 (fun i j => ivEq i j = true) L'' L' :=
+      hr.imp fun x y hxy => (ivEq_iff x y).2 ⟨hxy.1, hxy.2.1, hxy.2.2.1, modsOk _ _ hxy.2.2.2⟩
+    refine ⟨(hp.length_eq).trans (length_of_rel2 _ _ hr'), ?_⟩
+    exact msEq_trans ivEq_bequiv L L'' L' (msEq_of_perm ivEq L L'' hp) (msEq_of_rel2 ivEq_bequiv L'' L' hr')
+
+/-! ## sensitive to every other difference (one theorem per perturbation kind) -/
+
+/-- a different residue -/
+theorem eq_sensitive_residue (a b : Annotation) (h : a.seq ≠ b.seq) : annEq a b = false := by
+  cases he : annEq a b with
+  | false => rfl
+  | true => exact absurd ((annEq_iff a b).1 he).seq h
+
+/-- a different charge (including None against a number) -/
+theorem eq_sensitive_charge (a b : Annotation) (h : a.charge ≠ b.charge) : annEq a b = false := by
+  cases he : annEq a b with
+  | false => rfl
+  | true => exact absurd ((annEq_iff a b).1 he).charge h
+
+/-- one modification *value* changed to a value Python does not consider equal, in any slot -/
+theorem eq_sensitive_value (a b : Annotation) (s : Slot) (l : List Mod) (i : Nat) (hi : i < l.length) (v : ModVal)
+    (hv : valEq l[i].val v = false) (ha : s.get a = some l) (hb : s.get b = some (l.set i { l[i] with val := v })) :
+    annEq a b = false := by
+  apply annEq_false_of_slot a b s
+  rw [ha, hb]
+  exact msEq_set modEq_bequiv l i _ hi (modEq_false_of_val _ v hv)
+
+/-- one *multiplier* changed, in any slot -/
+theorem eq_sensitive_multiplier (a b : Annotation) (s : Slot) (l : List Mod) (i : Nat) (hi : i < l.length) (k : Int)
+    (hk : k ≠ l[i].mult) (ha : s.get a = some l) (hb : s.get b = some (l.set i { l[i] with mult := k })) :
+    annEq a b = false := by
+  apply annEq_false_of_slot a b s
+  rw [ha, hb]
+  exact msEq_set modEq_bequiv l i _ hi (modEq_false_of_mult _ k hk)
+
+/-- one modification *dropped*, in any slot -/
+theorem eq_sensitive_drop (a b : Annotation) (s : Slot) (l : List Mod) (i : Nat) (hi : i < l.length)
+    (ha : s.get a = some l) (hb : s.get b = some (l.eraseIdx i)) : annEq a b = false := by
+  apply annEq_false_of_slot a b s
+  rw [ha, hb]
+  exact msEq_eraseIdx modEq_bequiv l i hi
+
+/-- one modification *duplicated* (inserted anywhere), in any slot -/
+theorem eq_sensitive_duplicate (a b : Annotation) (s : Slot) (l : List Mod) (i j : Nat) (hi : i < l.length)
+    (hj : j ≤ l.length) (ha : s.get a = some l) (hb : s.get b = some (l.insertIdx j l[i])) : annEq a b = false := by
+  apply annEq_false_of_slot a b s
+  rw [ha, hb]
+  exact msEq_insertIdx modEq_bequiv l j _ hj
+
+/-- a whole slot present on one side only (a list, even `[]`, against None); for a residue slot this is a
+modification moved away from its *position* -/
+theorem eq_sensitive_position (a b : Annotation) (s : Slot) (l : List Mod)
+    (h : (s.get a = some l ∧ s.get b = none) ∨ (s.get a = none ∧ s.get b = some l)) : annEq a b = false := by
+  apply annEq_false_of_slot a b s
+  rcases h with ⟨h1, h2⟩ | ⟨h1, h2⟩ <;> rw [h1, h2] <;> rfl
+
+/-- one interval changed in a *bound*, in the ambiguity flag, or in its mods (to a non-equal list) -/
+theorem eq_sensitive_interval (a b : Annotation) (L : List Interval) (i : Nat) (hi : i < L.length) (iv : Interval)
+    (hiv : iv.start ≠ L[i].start ∨ iv.stop ≠ L[i].stop ∨ iv.ambiguous ≠ L[i].ambiguous ∨
+      areModsEqual L[i].mods iv.mods = false)
+    (ha : a.intervals = some L) (hb : b.intervals = some (L.set i iv)) : annEq a b = false := by
+  apply annEq_false_of_intervals
+  rw [ha, hb]
+  apply areIntervalsEqual_false_of_msEq
+  apply msEq_set ivEq_bequiv L i iv hi
+  cases he : ivEq L[i] iv with
+  | false => rfl
+  | true =>
+    obtain ⟨h1, h2, h3, h4⟩ := (ivEq_iff _ _).1 he
+    rcases hiv with h | h | h | h
+    · exact absurd h1.symm h
+    · exact absurd h2.symm h
+    · exact absurd h3.symm h
+    · rw [h4] at h; cases h
+
+/-- one interval dropped or duplicated -/
+theorem eq_sensitive_interval_count (a b : Annotation) (L : List Interval) (i : Nat) (hi : i < L.length)
+    (ha : a.intervals = some L)
+    (hb : b.intervals = some (L.eraseIdx i) ∨ ∃ j, j ≤ L.length ∧ b.intervals = some (L.insertIdx j L[i])) :
+    annEq a b = false := by
+  apply annEq_false_of_intervals
+  rcases hb with hb | ⟨j, hj, hb⟩ <;> rw [ha, hb] <;> apply areIntervalsEqual_false_of_msEq
+  · exact msEq_eraseIdx ivEq_bequiv L i hi
+  · exact msEq_insertIdx ivEq_bequiv L j _ hj
+
+/-- the perturbations above produce non-equal mod lists inside an interval as well -/
+theorem interval_mods_sensitive (l : List Mod) (i : Nat) (hi : i < l.length) :
+    (∀ v, valEq l[i].val v = false → areModsEqual (some l) (some (l.set i { l[i] with val := v })) = false) ∧
+    (∀ k, k ≠ l[i].mult → areModsEqual (some l) (some (l.set i { l[i] with mult := k })) = false) ∧
+    areModsEqual (some l) (some (l.eraseIdx i)) = false ∧
+    (∀ j, j ≤ l.length → areModsEqual (some l) (some (l.insertIdx j l[i])) = false) :=
+  ⟨fun v hv => msEq_set modEq_bequiv l i _ hi (modEq_false_of_val _ v hv),
+   fun k hk => msEq_set modEq_bequiv l i _ hi (modEq_false_of_mult _ k hk),
+   msEq_eraseIdx modEq_bequiv l i hi,
+   fun j hj => msEq_insertIdx modEq_bequiv l j _ hj⟩
+
+example : annEq exA { exA with charge := some 3 } = false ∧
+    annEq exA { exA with nterm := some [⟨.str "Acetyl".toList, 2⟩] } = false ∧
+    annEq exA { exA with internal := some [(0, [⟨.int 3, 1⟩]), (2, [⟨.flt "1.0".toList, 1⟩, ⟨.str "Phospho".toList, 2⟩])] } = false ∧
+    annEq exA { exA with intervals := some [⟨0, 3, false, some [⟨.int 5, 1⟩]⟩] } = false := by decide
+
+/-! ## modification dictionaries -/
+
+/-- `strip()` then `add_mod_dict(mod_dict())` gives back the annotation, field by field (either append mode).
+The only normalisation: an *empty* internal dict `{}` is not represented in the dictionary and comes back as None. -/
+theorem add_get_inverse (a : Annotation) (app : Bool) (h : a.internal ≠ some []) :
+    addModDict (strip a) (modDict a) app = a := by
+  rw [addModDict_strip_modDict, if_neg h]
+
+/-- without the side condition the rebuilt annotation is still `==` the source -/
+theorem add_get_inverse_eq (a : Annotation) (app : Bool) : annEq (addModDict (strip a) (modDict a) app) a = true := by
+  rw [addModDict_strip_modDict]
+  split
+  · rename_i h
+    refine (annEq_iff _ _).2 ⟨rfl, areModsEqual_bequiv.refl _, areModsEqual_bequiv.refl _, areModsEqual_bequiv.refl _,
+      areModsEqual_bequiv.refl _, areModsEqual_bequiv.refl _, areModsEqual_bequiv.refl _, areModsEqual_bequiv.refl _,
+      ?_, areIntervalsEqual_bequiv.refl _, rfl⟩
+    intro k
+    simp [getInternal, h, areModsEqual]
+  · exact eq_refl _
+
+/-- the wrappers: `add_mods(strip_mods(x), get_mods(x))` and `add_mods(*pop_mods(x))` (default `append=True`) -/
+theorem pt_add_get_inverse (a : Annotation) (h : a.internal ≠ some []) :
+    addMods { seq := stripMods a } (getMods a) = a ∧ addMods { seq := (ptPopMods a).1 } (ptPopMods a).2 = a :=
+  ⟨add_get_inverse a true h, add_get_inverse a true h⟩
+
+example : exA.internal ≠ some [] ∧ addModDict (strip exA) (modDict exA) = exA := by decide
+
+/-- `create_annotation(**a.dict())` is `a` -/
+theorem create_dict (a : Annotation) : createAnnotation (dictArgs a) = a := createAnnotation_dictArgs a
+
+/-- a copy is equal to its source (independence is a dynamic check) -/
+theorem copy_eq (a : Annotation) : copy a = a ∧ annEq (copy a) a = true := ⟨rfl, eq_refl a⟩
+
+/-- stripping removes every modification and nothing else -/
+theorem strip_spec (a : Annotation) :
+    (strip a).seq = a.seq ∧ modDict (strip a) = [] ∧ (popMods a).2 = strip a ∧ stripMods a = a.seq ∧
+    (strip a).isotope = none ∧ (strip a).static = none ∧ (strip a).labile = none ∧ (strip a).unknown = none ∧
+    (strip a).nterm = none ∧ (strip a).cterm = none ∧ (strip a).internal = none ∧ (strip a).intervals = none ∧
+    (strip a).charge = none ∧ (strip a).adducts = none :=
+  ⟨rfl, rfl, rfl, rfl, rfl, rfl, rfl, rfl, rfl, rfl, rfl, rfl, rfl, rfl⟩
+
+/-- stripping is idempotent and a stripped annotation equals another one iff the residues agree -/
+theorem strip_eq_iff (a b : Annotation) : annEq (strip a) (strip b) = true ↔ a.seq = b.seq := by
+  constructor
+  · intro h; exact ((annEq_iff _ _).1 h).seq
+  · intro h
+    have : strip a = strip b := by simp [strip, h]
+    rw [this]; exact eq_refl _
+
 end Pept.C20
